@@ -551,5 +551,191 @@ example :
           passthrough_without_grid_section (.obj [("plain", .null)]) (by rfl)])
   simpa [standsFor] using h
 
+
+/-! ### `input_plugin_ops.rs`, every function on every value -/
+
+/-- an error response is exactly `{"request": …, "error": <text>}`, in that order, and carries the
+request it is about -/
+theorem error_response_shape (q : Json) :
+    packageError q = .obj [("request", q), ("error", errorText)] ∧
+    (packageError q).get? "request" = some q := ⟨rfl, rfl⟩
+
+/-- the invariant error carries the query state when the caller still has it, else the placeholder
+`{"error": "unable to display query"}`; the sub-section only goes into the message -/
+theorem invariant_error_request (q sub : Option Json) :
+    packageInvariantError q sub = packageError (q.getD noRequest) := by
+  cases q <;> rfl
+
+/-- every error of the pipeline answers with the request it names -/
+theorem pipe_error_response_carries_request {ε : Type} (e : PipeErr ε) :
+    e.response.get? "request" = some e.request := rfl
+
+/-- **`json_array_flatten_in_place`, every value**: an array becomes the concatenation, in order, of
+what its elements stand for (an array element for its elements, anything else for itself) — exactly
+one level; anything that is not an array is rejected, untouched, and echoed as the request -/
+theorem flatten_in_place_spec {ε : Type} (v : Json) :
+    (∀ xs, v = .arr xs →
+      flattenInPlace (ε := ε) v = .ok (.arr (xs.flatMap standsFor))) ∧
+    (v.isArray = false → flattenInPlace (ε := ε) v = .error (.invariant v)) := by
+  constructor
+  · rintro xs rfl
+    simp only [flattenInPlace]
+    split
+    · next hall => rw [flatMap_standsFor_of_no_array xs hall]
+    · rw [flatten1_eq_flatMap]
+  · intro h
+    cases v <;> simp_all [flattenInPlace, Json.isArray]
+
+/-- only one level is removed: `[[[a]]]` becomes `[[a]]` -/
+example : flattenInPlace (ε := ErrKind) (.arr [.arr [.arr [.null]], .bool true])
+    = .ok (.arr [.arr [.null], .bool true]) := rfl
+
+/-- **`json_array_flatten`, every value**: it returns the elements of an array of objects, as they
+are; an array holding anything else is an invariant error (without the state: it was consumed); a
+value that is not an array is an invariant error that echoes it -/
+theorem final_flatten_spec {ε : Type} (v : Json) :
+    (∀ xs, v = .arr xs → xs.all Json.isObject = true →
+      jsonArrayFlatten (ε := ε) v = .ok xs) ∧
+    (∀ xs, v = .arr xs → xs.all Json.isObject = false →
+      jsonArrayFlatten (ε := ε) v = .error (.invariant noRequest)) ∧
+    (v.isArray = false → jsonArrayFlatten (ε := ε) v = .error (.invariant v)) := by
+  refine ⟨?_, ?_, ?_⟩
+  · rintro xs rfl h; simp [jsonArrayFlatten, h]
+  · rintro xs rfl h; simp [jsonArrayFlatten, h]
+  · intro h; cases v <;> simp_all [jsonArrayFlatten, Json.isArray]
+
+/-- `json_array_op` on a state that is not an array: an invariant error with the placeholder -/
+theorem state_op_rejects_non_array {ε : Type} (op : Json → Except ε Json) (v : Json)
+    (h : v.isArray = false) : jsonArrayOp op v = .error (.invariant noRequest) := by
+  cases v <;> simp_all [jsonArrayOp, Json.isArray]
+
+/-- `json_array_op`: the first query the plugin rejects decides; the response names that query -/
+theorem state_op_first_failure {ε : Type} (op : Json → Except ε Json) (pre post : List Json)
+    (q : Json) (e : ε) (hpre : ∀ p ∈ pre, ∃ r, op p = .ok r) (hq : op q = .error e) :
+    jsonArrayOp op (.arr (pre ++ q :: post)) = .error (.plugin q e) := by
+  have : mapOp op (pre ++ q :: post) = .error (.plugin q e) := by
+    induction pre with
+    | nil => simp [mapOp, hq]
+    | cons p pre ih =>
+      obtain ⟨r, hr⟩ := hpre p (by simp)
+      simp [mapOp, hr, ih (fun x hx => hpre x (by simp [hx]))]
+  simp [jsonArrayOp, this]
+
+/-! ### plugins from configuration (`GridSearchBuilder`, `build_input_plugins`) -/
+
+/-- the builder ignores its parameters and cannot fail -/
+theorem builder_ignores_parameters {ε : Type} (parameters : Json) :
+    gridSearchBuilder (ε := ε) parameters = .ok process := rfl
+
+/-- a plugin section listing `n` grid-search entries — whatever else the entries hold — builds `n`
+grid-search plugins -/
+theorem build_grid_search_entries (cfg : List (String × Json)) (entries : List Json)
+    (hc : lookup cfg "input_plugins" = some (.arr entries))
+    (he : ∀ e ∈ entries, e.get? "type" = some (.str gridKey)) :
+    buildInputPlugins gridOnlyRegistry (.obj cfg) = .ok (List.replicate entries.length process) := by
+  have : ∀ (es : List Json), (∀ e ∈ es, e.get? "type" = some (.str gridKey)) →
+      buildEntries gridOnlyRegistry es = .ok (List.replicate es.length process) := by
+    intro es
+    induction es with
+    | nil => intro _; rfl
+    | cons e r ih =>
+      intro hes
+      have h1 := hes e (by simp)
+      have h2 := ih (fun x hx => hes x (by simp [hx]))
+      simp [buildEntries, h1, gridOnlyRegistry, gridSearchBuilder, h2, List.replicate_succ]
+  simp [buildInputPlugins, Json.get?, hc, this entries he]
+
+/-- malformed sections: no `input_plugins` field, or one that is not an array -/
+theorem build_rejects_malformed_section (config : Json) :
+    (config.get? "input_plugins" = none →
+      buildInputPlugins gridOnlyRegistry config = .error .expectedField) ∧
+    (∀ v, config.get? "input_plugins" = some v → v.isArray = false →
+      buildInputPlugins gridOnlyRegistry config = .error .expectedType) := by
+  constructor
+  · intro h; simp [buildInputPlugins, h]
+  · intro v h hv; cases v <;> simp_all [buildInputPlugins, Json.isArray]
+
+/-- the first malformed entry decides: no `type`, a `type` that is not a string, or an unregistered
+name -/
+theorem build_first_bad_entry (pre post : List Json) (bad : Json)
+    (hpre : ∀ e ∈ pre, e.get? "type" = some (.str gridKey)) :
+    (bad.get? "type" = none →
+      buildEntries gridOnlyRegistry (pre ++ bad :: post) = .error .expectedField) ∧
+    (∀ v, bad.get? "type" = some v → v.isString = false →
+      buildEntries gridOnlyRegistry (pre ++ bad :: post) = .error .expectedType) ∧
+    (∀ t, bad.get? "type" = some (.str t) → t ≠ gridKey →
+      buildEntries gridOnlyRegistry (pre ++ bad :: post) = .error .unknownPlugin) := by
+  induction pre with
+  | nil =>
+    refine ⟨?_, ?_, ?_⟩
+    · intro h; simp [buildEntries, h]
+    · intro v h hv; cases v <;> simp_all [buildEntries, Json.isString]
+    · intro t h ht; simp [buildEntries, h, gridOnlyRegistry, ht]
+  | cons e pre ih =>
+    have h1 := hpre e (by simp)
+    obtain ⟨i1, i2, i3⟩ := ih (fun x hx => hpre x (by simp [hx]))
+    refine ⟨?_, ?_, ?_⟩
+    · intro h; simp [buildEntries, h1, gridOnlyRegistry, gridSearchBuilder, i1 h]
+    · intro v h hv; simp [buildEntries, h1, gridOnlyRegistry, gridSearchBuilder, i2 v h hv]
+    · intro t h ht; simp [buildEntries, h1, gridOnlyRegistry, gridSearchBuilder, i3 t h ht]
+
+/-- a state of queries the plugin leaves alone, none of them an array, is left alone -/
+theorem state_op_identity {ε : Type} (op : Json → Except ε Json) (qs : List Json)
+    (hop : ∀ q ∈ qs, op q = .ok q) (hna : qs.all (fun v => !v.isArray) = true) :
+    jsonArrayOp op (.arr qs) = .ok (.arr qs) := by
+  have h := state_op_concatenates op qs qs (List.map_congr_left hop)
+  rw [flatMap_standsFor_of_no_array qs hna] at h
+  exact h
+
+/-- **listing the plugin several times changes nothing**: a generated query has no grid section
+left, so every further grid-search pass returns the state as it is -/
+theorem repeated_grid_search_is_idempotent {q : Json} {kvs sec : List (String × Json)}
+    (h : GridQuery q kvs sec) (hn : (kvs.map (·.1)).Nodup) (n : Nat) :
+    applyInputPlugins (List.replicate (n + 1) process) q = applyInputPlugins [process] q := by
+  have ho : q.isObject = true := by rw [h.isObj]; rfl
+  let outs := expand (swapRemoveKv kvs gridKey) (axes sec)
+  have hfirst : jsonArrayOp process (.arr [q]) = .ok (.arr outs) := by
+    have hall : outs.all (fun v => !v.isArray) = true := by
+      simp [outs, expand, Json.isArray]
+    simp [jsonArrayOp, mapOp, grid_expansion h, flattenInPlace, Json.isArray, flatten1, outs]
+  have hleave : ∀ o ∈ outs, process o = .ok o := by
+    intro o hoo
+    obtain ⟨c, _, rfl⟩ := List.mem_map.mp hoo
+    apply passthrough_without_grid_section
+    simpa [Json.get?, instanceKv] using output_has_no_grid_key h hn c
+  have hna : outs.all (fun v => !v.isArray) = true := by
+    simp [outs, expand, Json.isArray]
+  have hrest : ∀ m, applyOps (List.replicate m process) (.arr outs) = .ok (.arr outs) := by
+    intro m
+    induction m with
+    | zero => rfl
+    | succ m ih => simp [List.replicate_succ, applyOps, state_op_identity process outs hleave hna, ih]
+  simp only [applyInputPlugins, ho, if_true, List.replicate_succ, applyOps, hfirst, hrest n]
+
+-- non-vacuity: the example query through the plugin listed three times; a section with two entries
+-- and stray parameters; the malformed sections
+example : applyInputPlugins [process, process, process] (.obj exQuery)
+    = applyInputPlugins [process] (.obj exQuery) :=
+  repeated_grid_search_is_idempotent exQuery_is_grid_query (by decide +kernel) 2
+example : (buildInputPlugins gridOnlyRegistry (.obj [("output_plugins", .arr []), ("input_plugins",
+      .arr [.obj [("type", .str "grid_search")],
+            .obj [("anything", .num "1" 0), ("type", .str "grid_search")]])])).map List.length
+    = .ok 2 := by
+  rw [build_grid_search_entries _ _ (by rfl) (by
+    intro e he
+    simp only [List.mem_cons, List.not_mem_nil, or_false] at he
+    rcases he with rfl | rfl <;> rfl)]
+  rfl
+example : buildInputPlugins gridOnlyRegistry (.obj []) = .error .expectedField :=
+  (build_rejects_malformed_section _).1 rfl
+example : buildInputPlugins gridOnlyRegistry (.obj [("input_plugins", .str "grid_search")])
+    = .error .expectedType :=
+  (build_rejects_malformed_section _).2 _ (by rfl) rfl
+example : buildEntries gridOnlyRegistry [.obj [("type", .str "grid_search")], .obj [("type", .str "nope")]]
+    = .error .unknownPlugin :=
+  (build_first_bad_entry [.obj [("type", .str "grid_search")]] [] _ (by
+    intro e he; simp only [List.mem_cons, List.not_mem_nil, or_false] at he; subst he; rfl)).2.2
+    "nope" (by rfl) (by decide)
+
 end C17
 end Compass
